@@ -31,8 +31,13 @@ import (
 // it only exists so that an endless loop is reported instead of blocking the run.
 const watchdogLimit = 60 * time.Second
 
-// maxHangs bounds the number of leaked (hung) goroutines per worker process.
-const maxHangs = 2
+// A hung case leaks its goroutine (a Go goroutine cannot be killed). A sub-check
+// stops enumerating after maxHangsPerSub hung cases in one worker (and is then not
+// marked complete); a worker tolerates maxHangsPerWorker leaked goroutines in all.
+const (
+	maxHangsPerSub    = 2
+	maxHangsPerWorker = 4
+)
 
 type outcome struct {
 	stage    string // how far the reader got
@@ -45,10 +50,15 @@ type outcome struct {
 }
 
 type guard struct {
-	hangs int
+	hangs    int // leaked goroutines in this worker
+	subHangs int // ... during the current sub-check
 }
 
-func (g *guard) exhausted() bool { return g.hangs >= maxHangs }
+func (g *guard) beginSub() { g.subHangs = 0 }
+
+func (g *guard) exhausted() bool {
+	return g.subHangs >= maxHangsPerSub || g.hangs >= maxHangsPerWorker
+}
 
 // run executes f in its own goroutine so that an endless loop can be abandoned
 // (the goroutine is leaked; a Go goroutine cannot be killed).
@@ -75,6 +85,7 @@ func (g *guard) run(f func(stage *string) error) outcome {
 		return o
 	case <-t.C:
 		g.hangs++
+		g.subHangs++
 		return outcome{hung: true}
 	}
 }
